@@ -25,6 +25,8 @@ func main() {
 	dst := flag.String("dst", "", "destination directory (must exist, a copy of src)")
 	suffix := flag.String("suffix", "Zq", "suffix appended to every local name")
 	only := flag.String("only", "", "comma-separated base names of the files to rewrite (default all)")
+	mirror := flag.Bool("mirror", false, "instead of renaming: write every comparison a < b as b > a (and <=, >, >= likewise)")
+	flip := flag.Bool("flip", false, "instead of renaming: write every `if c { A } else { B }` as `if !(c) { B } else { A }`")
 	flag.Parse()
 	if *dst == "" {
 		fmt.Fprintln(os.Stderr, "need -dst")
@@ -71,6 +73,40 @@ func main() {
 					return false
 				}
 				return o.Parent() != p.Types.Scope() && o.Parent() != types.Universe && o.Name() != "_"
+			}
+			if *mirror || *flip {
+				ast.Inspect(f, func(nd ast.Node) bool {
+					switch x := nd.(type) {
+					case *ast.BinaryExpr:
+						if *mirror {
+							m := map[token.Token]token.Token{token.LSS: token.GTR, token.GTR: token.LSS, token.LEQ: token.GEQ, token.GEQ: token.LEQ}
+							if op, ok := m[x.Op]; ok {
+								x.X, x.Y, x.Op = x.Y, x.X, op
+								n++
+							}
+						}
+					case *ast.IfStmt:
+						if *flip && x.Else != nil {
+							if eb, ok := x.Else.(*ast.BlockStmt); ok {
+								x.Cond = &ast.UnaryExpr{Op: token.NOT, X: &ast.ParenExpr{X: x.Cond}}
+								x.Body, x.Else = eb, x.Body
+								n++
+							}
+						}
+					}
+					return true
+				})
+				out, err := os.Create(filepath.Join(*dst, rel))
+				if err != nil {
+					fmt.Fprintln(os.Stderr, err)
+					os.Exit(1)
+				}
+				if err := format.Node(out, fset, f); err != nil {
+					fmt.Fprintln(os.Stderr, rel, err)
+					os.Exit(1)
+				}
+				out.Close()
+				continue
 			}
 			ast.Inspect(f, func(nd ast.Node) bool {
 				id, ok := nd.(*ast.Ident)
